@@ -12,6 +12,7 @@
 
 #include <algorithm>
 #include <cmath>
+#include <functional>
 #include <map>
 #include <set>
 #include <sstream>
@@ -249,6 +250,38 @@ void run(Src &src, Case &c)
     if (map0.hasVoi) {
         primary[static_cast<size_t>(map0.voiCls)] = map0.voiInst;
     }
+    // The member of each class the analyser tracks before it has assigned equations: the initialised member if there is
+    // one, else the member of the first component (model order, depth first) that holds one. Used to localise findings.
+    std::vector<int> firstMet(n, 0);
+    {
+        std::vector<std::string> order;
+        std::function<void(const ComponentPtr &)> walk = [&](const ComponentPtr &comp) {
+            order.push_back(comp->name());
+            for (size_t i = 0; i < comp->componentCount(); ++i) {
+                walk(comp->component(i));
+            }
+        };
+        for (size_t i = 0; i < b0.model->componentCount(); ++i) {
+            walk(b0.model->component(i));
+        }
+        for (size_t k = 0; k < n; ++k) {
+            size_t best = order.size();
+            for (size_t j = 0; j < gt.classes[k].inst.size(); ++j) {
+                const auto &in = gt.classes[k].inst[j];
+                const auto &cs = gt.spec.comps[static_cast<size_t>(in.comp)];
+                if (!cs.vars[static_cast<size_t>(in.var)].initial.empty()) {
+                    firstMet[k] = static_cast<int>(j);
+                    break;
+                }
+                size_t pos = static_cast<size_t>(std::find(order.begin(), order.end(), cs.name) - order.begin());
+                if (pos < best) {
+                    best = pos;
+                    firstMet[k] = static_cast<int>(j);
+                }
+            }
+        }
+    }
+    auto memberNote = [&](int cls) { return std::string(firstMet[static_cast<size_t>(cls)] == primary[static_cast<size_t>(cls)] ? "|first-met-member-is-the-primary" : "|first-met-member-is-another"); };
     const auto dep = c20Dependence(gt);
     std::vector<bool> readByOthers(n, false);
     for (size_t a = 0; a < n; ++a) {
@@ -638,14 +671,14 @@ void run(Src &src, Case &c)
                     how = specialName(m.special);
                 }
             }
-            if (!report(std::string("C20.message|unexpected|") + ruleName(is->referenceRule()) + "|marking:" + how, "message not called for by the markings: " + is->description() + "\nissues:\n" + issuesText)) {
+            if (!report(std::string("C20.message|unexpected|") + ruleName(is->referenceRule()) + "|marking:" + how + (icls >= 0 ? memberNote(icls) : ""), "message not called for by the markings: " + is->description() + "\nissues:\n" + issuesText)) {
                 return;
             }
         }
     }
     for (const auto &e : expects) {
         if (!e.matched && !e.optional) {
-            if (!report(std::string("C20.message|missing|") + ruleName(e.rule) + "|marking:" + specialName(e.special), std::string("no message with rule ANALYSER_EXTERNAL_VARIABLE_") + ruleName(e.rule) + " for the " + specialName(e.special) + " marking of class " + std::to_string(e.cls) + "\nissues:\n" + issuesText)) {
+            if (!report(std::string("C20.message|missing|") + ruleName(e.rule) + "|marking:" + specialName(e.special) + memberNote(e.cls), std::string("no message with rule ANALYSER_EXTERNAL_VARIABLE_") + ruleName(e.rule) + " for the " + specialName(e.special) + " marking of class " + std::to_string(e.cls) + "\nissues:\n" + issuesText)) {
                 return;
             }
         }
@@ -925,7 +958,7 @@ void run(Src &src, Case &c)
                 c.count("declared-dependencies-checked");
                 if (!closeEnough(got, want, kTol)) {
                     std::string drole = dExt ? "external" : gtRoleName(dc.role);
-                    if (!bad("C20.order|" + L + "|" + stageName(k.stage) + "|dependency:" + drole,
+                    if (!bad("C20.order|" + L + "|" + stageName(k.stage) + "|dependency:" + drole + memberNote(d.first),
                              where + ": declared dependency " + instLabel(gt, d.first, d.second) + " (" + drole + ") holds " + std::to_string(got) + " but its value is " + std::to_string(want) + " - the callback is invoked before the dependency has been computed")) return false;
                 }
             }
